@@ -8,13 +8,14 @@ from asv.loader import AnalysisError, Program
 from asv.report import Ctx, Undischarged, load_known, match_known
 import asv.rules.common as common
 
-names = list(mutants.TWINS) if sys.argv[1] == "all" else [sys.argv[1]]
+ALL = dict(mutants.TWINS); ALL.update(getattr(mutants, "EXTRA_TWINS", {}))
+names = list(mutants.TWINS) if sys.argv[1] == "all" else (list(ALL) if sys.argv[1] == "extra" else [sys.argv[1]])
 props = sys.argv[2:] or PROPS
 bad = 0
 for name in names:
     tmp = mutants.copy_pkg()
     try:
-        mutants.TWINS[name](tmp)
+        ALL[name](tmp)
         common._TYPER.clear(); common._PARENTS.clear(); common._ENVS.clear()
         prog = Program(tmp)
         known = load_known()
